@@ -48,6 +48,9 @@ CLAIMED = {
             'sequence numbers in the bound. Bounded.'),
     'C19': ('5-C19', 'The real fetch generator runs against a stub producer; discovery segment number (64-bit symbolic), every loss '
             'pattern (one solver Boolean per attempt), retry limit, object size and final-block marker are explored. Bounded.'),
+    'C17': ('5-C17', 'Concurrent register/unregister calls against a stub forwarder with every reply kind; every clock reading is a '
+            'fresh solver variable (non-decreasing, advancing with virtual time); command Interests are decoded from the face output '
+            'with the reference reader; success iff status 200 decided for all 64-bit status codes. Bounded.'),
 }
 NOT_YET = 'check not built yet in this revision of /verif (planned in DESIGN.md section 5)'
 NA = {
